@@ -992,6 +992,14 @@ impl ConsensusMsg {
             ConsensusMsg::V2(ChonkyMsg::ReplicaTimeout(m)) => m.view.number,
         }
     }
+    pub open spec fn spec_genesis(&self) -> GenesisHash {
+        match self {
+            ConsensusMsg::V2(ChonkyMsg::LeaderProposal(m)) => m.justification.spec_view().genesis,
+            ConsensusMsg::V2(ChonkyMsg::ReplicaCommit(m)) => m.view.genesis,
+            ConsensusMsg::V2(ChonkyMsg::ReplicaNewView(m)) => m.justification.spec_view().genesis,
+            ConsensusMsg::V2(ChonkyMsg::ReplicaTimeout(m)) => m.view.genesis,
+        }
+    }
 }
 pub type FromNetworkMessage = ConsensusReq;
 """, label="prelude select", props=["C16"])
@@ -999,6 +1007,10 @@ pub type FromNetworkMessage = ConsensusReq;
          spec="    ensures r == ConsensusMsg::V2(*self).spec_view_number(),      // total: no panic for any (unverified) message\n")
     U.fn(F_CONS, "impl ConsensusMsg :: fn view_number", wrap="impl ConsensusMsg", ret="r", props=["C16", "C10"],
          spec="    ensures r == self.spec_view_number(),\n")
+    U.fn(F_CONS2, "impl ChonkyMsg :: fn genesis", wrap="impl ChonkyMsg", ret="r", props=["C16", "C10"],
+         spec="    ensures r == ConsensusMsg::V2(*self).spec_genesis(),\n")
+    U.fn(F_CONS, "impl ConsensusMsg :: fn genesis", wrap="impl ConsensusMsg", ret="r", props=["C16", "C10"],
+         spec="    ensures r == self.spec_genesis(),\n")
     U.fn(F_LIB, "fn inbound_selection_function", ret="r", props=["C16"], spec="""
     ensures
         // messages of different senders or kinds never displace each other
@@ -1036,8 +1048,10 @@ def build(repo):
     add_core(U)
     add_views(U)
     add_proposal(U)
+    U.props = ["C03", "C05", "C01", "C10", "C16"]      # the vote-cache half of C16 lives in on_commit / on_timeout / start
     add_votes(U)
     add_start(U)
+    U.props = ["C03", "C05", "C01", "C10"]
     add_select(U)
     U.assume("A4: a handler runs on one task and owns &mut self; .await points are sequential calls")
     U.assume("A5: EngineManager::set_state is durable when it returns Ok; what get_state returns is what was last stored")
